@@ -1,4 +1,5 @@
 //! E2: pure-function workloads. Generated inputs -> real function of /repo -> independent oracle.
+mod c02;
 mod c04;
 mod c07;
 mod c11;
@@ -11,6 +12,7 @@ fn main() {
     vcommon::install_quiet_panic_hook();
     let mut rep = Report::new(&args);
     match args.prop.as_str() {
+        "C02" => c02::run(&args, &mut rep),
         "C04" => c04::run(&args, &mut rep),
         "C07" => c07::run(&args, &mut rep),
         "C11" => c11::run(&args, &mut rep),
